@@ -40,10 +40,12 @@ impl Distance for BinaryQuantizedCosine {
     }
 
     fn built_distance(p: &Leaf<Self>, q: &Leaf<Self>) -> f32 {
-        let pn = p.header.norm;
-        let qn = q.header.norm;
         let pq = dot_product_binary_quantized(&p.vector, &q.vector);
-        let pnqn = pn * qn;
+        // Every quantized vector has the same norm: the square root of its (padded) number of
+        // dimensions. The product of two norms is this number, exactly, which the product of the two
+        // rounded square roots stored in the headers is not: the distance between a vector and
+        // itself was not zero and could even be negative.
+        let pnqn = (p.vector.len() as f32 * q.vector.len() as f32).sqrt();
         if pnqn != 0.0 {
             let cos = pq / pnqn;
             // cos is [-1; 1]
